@@ -29,7 +29,9 @@
    NewPeerIDFromAddress, packets with foreign src ids passing through the packet reader; the
    environment action OtherIds) -- the connection keeps exactly the identity that was proven. *)
 EXTENDS Integers, Sequences, FiniteSets, TLC
-CONSTANTS MaxChurn,     \* how often the environment action OtherIds may happen in a run
+CONSTANTS DialerSelfCheck,  \* TRUE: the required behaviour (a dialer refuses its own identity, as the acceptor does);
+                            \* FALSE: model of a dialer without that test (used as a probe: the invariant must fail)
+          MaxChurn,     \* how often the environment action OtherIds may happen in a run
           Sessions,     \* subset of {1, 2, 3} (real dialers) \cup {4, 5} (connections opened by transcript replay)
           PkForms,      \* encodings of a public key: "comp", "uncomp" parse; "bad" does not
           SigForms,     \* "full", "nov" (64 bytes), "vflip" verify;  "rflip" does not verify;
@@ -126,7 +128,8 @@ ToAcceptor(s, m) ==
 ToDialer(s, m) ==
   /\ dph[s] = "wait" /\ (m.err \/ Constructible(m))
   /\ LET v == Verify(m, s)
-         res == IF m.err THEN "error:remote" ELSE IF v # "ok" THEN v ELSE "accept"
+         res == IF m.err THEN "error:remote" ELSE IF v # "ok" THEN v
+                ELSE IF DialerSelfCheck /\ m.pkw = DialerOf(s) THEN "error:self" ELSE "accept"
      IN /\ dph' = [dph EXCEPT ![s] = IF res = "accept" THEN "acc" ELSE "closed"]
         /\ did' = [did EXCEPT ![s] = IF res = "accept" THEN m.pkw ELSE @]
         /\ dmsg' = [dmsg EXCEPT ![s] = IF res = "accept" THEN m ELSE @]
@@ -165,6 +168,21 @@ OtherIds ==
   /\ UNCHANGED <<dph, did, aph, aid, deph, aeph, src, amsg, dmsg, seen>>
   /\ Log(Rec("churn", 0, NoMsg, "ok", ""))
 
+\* Reflection: the accepting end point of session s is run by an adversary that holds NO identity key.  It completes
+\* the anonymous ephemeral key exchange (so it knows the session secret), receives the dialer's SignatureRequest and
+\* answers with the dialer's OWN public key and signature as its SignatureResponse.  The signature is genuine and over
+\* this very session's secret -- but the peer never proved possession of any key: required outcome "error:self",
+\* connection closed, no identity.
+Reflect(s, pkf) ==
+  /\ s \in Dialled /\ dph[s] = "wait" /\ pkf \in PkForms \ {"bad"}
+  /\ LET m == Msg(DialerOf(s), pkf, DialerOf(s), s, "full", FALSE)
+         res == IF DialerSelfCheck THEN "error:self" ELSE "accept"
+     IN /\ dph' = [dph EXCEPT ![s] = IF res = "accept" THEN "acc" ELSE "closed"]
+        /\ did' = [did EXCEPT ![s] = IF res = "accept" THEN m.pkw ELSE @]
+        /\ dmsg' = [dmsg EXCEPT ![s] = IF res = "accept" THEN m ELSE @]
+        /\ UNCHANGED <<aph, aid, amsg, seen, deph, aeph, src, churn>>
+        /\ Log(Rec("reflect", s, m, res, IF res = "accept" THEN m.pkw ELSE ""))
+
 Can == nops < MaxOps
 ErrMsg == Msg("", "", "", 0, "", TRUE)
 Next == \/ \E s \in Sessions : Can /\ Start(s)
@@ -172,6 +190,7 @@ Next == \/ \E s \in Sessions : Can /\ Start(s)
         \/ \E s \in Sessions, m \in Msgs : Can /\ ToAcceptor(s, m)
         \/ \E s \in Sessions, m \in Msgs \cup {ErrMsg} : Can /\ ToDialer(s, m)
         \/ Can /\ OtherIds
+        \/ \E s \in Sessions, pkf \in PkForms : Can /\ Reflect(s, pkf)
         \/ \E s \in Sessions, side \in {"a", "d"}, what \in Misuses : Can /\ Misuse(s, side, what)
         \/ \E t \in Sessions, what \in FreshMisuses : Can /\ FreshMisuse(t, what)
 Spec == Init /\ [][Next]_vars
@@ -205,9 +224,12 @@ SecretsDistinct == \A s, t \in Sessions : (s # t /\ aeph[s] # 0 /\ aeph[t] # 0) 
                       /\ Secret(s) # Secret(t)
 \* ... and a connection opened by replaying a recorded transcript is never identified as anybody
 ReplayedNeverIdentified == \A t \in Replayed : aph[t] # "acc"
-\* consequence on the dialer: the identity belongs to an end point of this session (the dialer side has
-\* no self-identity test, so a reflected SignatureRequest yields the dialer's own identity)
-DialerSeesSessionEnd == \A s \in Sessions : dph[s] = "acc" => did[s] \in Ends(s)
+\* an identity is assigned only to a party that holds that identity's key: a node never identifies the other end of
+\* a connection as ITSELF (nobody else holds its key) -- neither the acceptor (selfAddress test) nor the dialer
+NoIdentityWithoutKey == \A s \in Sessions : /\ (dph[s] = "acc" => did[s] # DialerOf(s))
+                                              /\ (aph[s] = "acc" => aid[s] # Acceptor)
+\* consequence on the dialer: the identity is that of the acceptor (or of the attacker's node sitting in the middle)
+DialerSeesSessionEnd == \A s \in Sessions : dph[s] = "acc" => did[s] \in ((Ends(s) \cup {Attacker}) \ {DialerOf(s)})
 \* the attacker is never taken for somebody else anywhere
 AttackerNeverOther == \A s \in Known : (aph[s] = "acc" => aid[s] = Attacker)
 =============================================================================
